@@ -836,6 +836,27 @@ func (x *inst[N, L]) battery(what *callDesc) *space.Mismatch {
 			return mm
 		}
 	}
+	// one iterator value walked again: "calling the iterator again walks the sequence again"
+	// (package iter)
+	*what = callDesc{name: "All (same iterator value walked a second time)"}
+	{
+		seq := l.All()
+		col.reset(never)
+		for k, v := range seq {
+			if !col.add(k, v) {
+				break
+			}
+		}
+		col.reset(never)
+		for k, v := range seq {
+			if !col.add(k, v) {
+				break
+			}
+		}
+		if mm := x.expect(*what, 0, en, never); mm != nil {
+			return mm
+		}
+	}
 	*what = callDesc{name: "Range"}
 	for stop := 1; stop <= en+1; stop++ {
 		s := stop
